@@ -1,61 +1,151 @@
 """C05 — object bytes follow the documented binary layout (independent decoder)."""
+import numpy as np
+
 from xv import bufmon
-from xv.typegen import kinds_in, shape_sig, diff_model, walk
-from xv.model import exc_kind
+from xv.typegen import kinds_in, shape_sig, diff_model, walk, plain, build, has_refs
+from xv.model import exc_kind, nodes, get_path, set_path, set_model
 from xv.decoder import decode
-from xv.props.common import new_case, build_root, flush_contracts
+from xv.props.common import new_case, build_root, flush_contracts, ctxs
+from xv.props import c01 as _c01
 
 ID = "C05"
 LEVEL = "exploration"
 N_QUICK, N_THOROUGH = 100000, 3000000
 T_QUICK, T_THOROUGH = 70, 1500
+FORMS = ["plain", "plain", "plain", "kwargs", "nd_c", "nd_f", "nd_strided", "nd_obj", "xobj_same", "xobj_other", "nested_xobj"]
 FLOORS = {"objects_decoded": 4000, "parts_checked": 100000, "seen:st": 1000, "seen:str": 500, "seen:ref": 300,
           "seen:ur": 200, "seen:ar2doD": 20, "seen:ar2dS": 100, "seen:ar3soS": 20, "nonnull_refs_decoded": 300,
-          "null_refs_decoded": 100, "strides_checked": 100}
-RULE = ("random type AST x value x placement (as C01, plain-data and kwargs input forms); the raw bytes of the "
-        "buffer are handed to a decoder written only from Architecture.md / types.rst / the property text, which "
-        "must recover the model value with no format violation (slots, size words, field order, offset tables in "
-        "memory order, stored strides == declared order, NUL termination, null encodings). distinct = (name-erased "
-        "AST, placement class); non-trivial = has a compound node.")
+          "null_refs_decoded": 100, "strides_checked": 100, "decodes_after_assignment": 3000,
+          "assign:whole-from-xobject": 150, "assign:ref": 150, "assign:leaf": 1000}
+FLOORS.update({"form:" + f: 400 for f in set(FORMS)})
+RULE = ("random type AST x value x placement x input form (plain data, kwargs, ndarray C/F/strided/object, another "
+        "xobject of the same or another buffer, nested xobjects), followed by 0-3 fitting assignments (leaf, whole "
+        "nested struct/array from plain data or from an xobject living elsewhere in the same buffer, reference "
+        "re-binding); after construction and after EVERY assignment the raw bytes of the buffer are handed to a "
+        "decoder written only from Architecture.md / types.rst / the property text, which must recover the model "
+        "value with no format violation (slots, size words, field order, offset tables in memory order, stored "
+        "strides == declared order, NUL termination, null encodings, references relative to their own slot). "
+        "distinct = (name-erased AST, input form, placement class); non-trivial = has a compound node.")
 ASSUMPTIONS = ["where types.rst (Ref = offset from buffer start) and the property text (relative to own slot) disagree, the property text wins",
                "item data of dynamic-item arrays need not be contiguous or ordered; only the table position is checked"]
 
 
+def _is_target(label):
+    return label.endswith("->") or (label[-1].isdigit() and label[-3:-1] == "->")
+
+
+def _construct(c, rng, form):
+    t, cls, env = c.t, c.cls, c.env
+    if form in ("plain", "kwargs") or t["k"] in ("ur", "str"):
+        return build_root(c, rng)
+    if form in ("xobj_same", "xobj_other"):
+        a = plain(t, c.mv, rng, np_scalars=True)
+        if form == "xobj_same":
+            src = cls(a, _buffer=env.buf)
+        else:
+            src = cls(a, _context=ctxs()[1]) if rng.random() < 0.5 else cls(a)
+        env.repoison()
+        arg = src
+    else:
+        arg = _c01.to_input(t, c.mv, rng, form, c.cache, env)
+        env.repoison()
+    kw = dict(_buffer=env.buf)
+    if c.mode in ("aligned", "packed"):
+        kw["_offset"] = c.mode
+    return cls(arg, **kw)
+
+
+def _mutate(c, rng, h, view, mv):
+    """One random fitting assignment; returns (new model, description) or None."""
+    t, env = c.t, c.env
+    allnodes = [(p, l, nt, nv) for p, l, nt, nv in nodes(t, mv) if p]
+    r = rng.random()
+    if r < 0.45:
+        op, cand = "leaf", [x for x in allnodes if x[2]["k"] in ("sc", "str")]
+    elif r < 0.8:
+        op, cand = "whole", [x for x in allnodes if x[2]["k"] in ("st", "ar") and not _is_target(x[1]) and
+                             (x[2]["k"] == "st" or 0 not in x[3].shape)]
+    else:
+        op, cand = "ref", [x for x in allnodes if x[2]["k"] in ("ref", "ur")]
+    if not cand:
+        return None
+    p, l, nt, nv = rng.choice(cand)
+    k = nt["k"]
+    newv = c.vg.value(nt) if op == "ref" else c.vg.same_shape(nt, nv)
+    arg = plain(nt, newv, rng, np_scalars=True)
+    how = op
+    if op == "whole" and rng.random() < 0.5:
+        arg = build(nt, c.cache)(arg, _buffer=env.buf if rng.random() < 0.75 else None)
+        how = "whole-from-xobject"
+    elif op == "ref" and newv is not None and rng.random() < 0.4:
+        tt = nt["to"] if k == "ref" else nt["m"][newv[0]]
+        arg = build(tt, c.cache)(plain(tt, newv if k == "ref" else newv[1], rng), _buffer=env.buf)
+    set_path(rng.choice([h, view]), p, arg)
+    return set_model(t, mv, p, newv), [how, l, repr(arg)[:80]]
+
+
+def _judge(w, c, h, mv, info, stage, seen):
+    raw = bufmon.raw_bytes(c.env.buf)
+    v, ext, errs, targets = decode(c.t, raw, int(h._offset))
+    for kind, label, detail in errs:
+        if (stage, kind) in seen:
+            continue
+        seen.add((stage, kind))
+        w.violation(f"decode{stage}:" + kind, f"{label}: {detail}", info)
+    if v is not None or ext is not None:
+        w.count("parts_checked", sum(1 for r in [ext] + targets for _ in r.flat()))
+        w.count("nonnull_refs_decoded", len(targets))
+        d = diff_model(c.t, v, mv)
+        if d is not None and (stage, "diff") not in seen:
+            seen.add((stage, "diff"))
+            w.violation(f"decoded-value-differs{stage}|{d[1]}", f"at {d[0]}", info)
+    return bool(seen)
+
+
 def run_case(w, rng):
-    c = new_case(w, rng)
+    form = rng.choice(FORMS)
+    c = new_case(w, rng, roots=("ar", "ar", "st") if form.startswith("nd_") else ("st", "ar", "str", "ur"),
+                 modes=(None, None, "aligned", "packed", "explicit") if form in ("plain", "kwargs") else (None, None, "aligned", "packed"))
+    info = dict(c.info, form=form)
     try:
         try:
-            h = build_root(c, rng)
+            h = _construct(c, rng, form)
         except Exception as e:
-            w.violation(f"construct-{exc_kind(e)}", f"{type(e).__name__}: {e}", c.info)
+            w.violation(f"construct-{exc_kind(e)}|{form}", f"{type(e).__name__}: {e}", info)
             return
-        raw = bufmon.raw_bytes(c.env.buf)
-        v, ext, errs, targets = decode(c.t, raw, int(h._offset))
         w.count("objects_decoded")
+        w.count("form:" + form)
         for kk in kinds_in(c.t):
             w.seen(kk)
+        for n in walk(c.t):
+            if n["k"] == "ar" and len(n["dims"]) > 1 and None in n["dims"]:
+                w.count("strides_checked")
+        w.count("null_refs_decoded", _nulls(c.t, c.mv))
         seen = set()
-        for kind, label, detail in errs:
-            if kind in seen:
-                continue
-            seen.add(kind)
-            w.violation("decode:" + kind, f"{label}: {detail}", c.info)
-        if v is not None or ext is not None:
-            parts = sum(1 for r in [ext] + targets for _ in r.flat())
-            w.count("parts_checked", parts)
-            w.count("nonnull_refs_decoded", len(targets))
-            for n in walk(c.t):
-                if n["k"] == "ar" and len(n["dims"]) > 1 and None in n["dims"]:
-                    w.count("strides_checked")
-            d = diff_model(c.t, v, c.mv)
-            if d is not None:
-                w.violation(f"decoded-value-differs|{d[1]}", f"at {d[0]}", c.info)
-            w.count("null_refs_decoded", _nulls(c.t, c.mv))
-        w.case([shape_sig(c.t), c.env.kind, c.env.al, c.mode], sample=c.info if c.nontrivial and rng.random() < 0.003 else None,
+        bad = _judge(w, c, h, c.mv, info, "", seen)
+        if not bad and c.t["k"] in ("st", "ar"):
+            mv = c.mv
+            view = c.cls._from_buffer(c.env.buf, h._offset)
+            hist = []
+            for _ in range(rng.choice([0, 0, 1, 2, 3])):
+                try:
+                    r = _mutate(c, rng, h, view, mv)
+                except Exception as e:
+                    w.violation(f"assign-{exc_kind(e)}", f"{type(e).__name__}: {e}", dict(info, history=hist))
+                    break
+                if r is None:
+                    continue
+                mv, desc = r
+                hist.append(desc)
+                w.count("decodes_after_assignment")
+                w.count("assign:" + desc[0])
+                if _judge(w, c, h, mv, dict(info, history=hist), "-after-assignment", seen):
+                    break
+        w.case([shape_sig(c.t), form, c.env.kind, c.env.al, c.mode], sample=info if c.nontrivial and rng.random() < 0.003 else None,
                nontrivial=c.nontrivial)
     finally:
         c.env.close()
-        flush_contracts(w, c.info)
+        flush_contracts(w, info)
 
 
 def _nulls(t, mv):
